@@ -601,6 +601,47 @@ fn c18_open_refusal_has_no_effect() {
     core::mem::forget(res);
 }
 
+// C18 (lifetime of the lock): both advisory locks live exactly as long as some Database handle does.  The
+// fs model releases a file's lock when the last handle on the locking open-file description is dropped
+// (what the kernel does for flock); a read-only file handed out to external consumers must therefore be a
+// separate description, or it would keep the directory locked after the database is gone.
+#[kani::proof]
+#[kani::unwind(9)]
+#[kani::stub(alloc::fmt::format, stubs::format_stub)]
+#[kani::stub(crate::Database::sync_bg_tasks, crate::verif_root::sync_bg_tasks_stub)]
+#[kani::stub(<[u8]>::to_vec, stubs::to_vec_stub8)]
+#[kani::stub(std::path::Path::file_name, c18_file_name_stub)]
+#[kani::stub(std::path::Path::join, c18_join_stub)]
+#[kani::stub(crate::regions::Regions::fill, c18_fill_stub)]
+fn c18_lock_lives_with_last_handle() {
+    let data_len: usize = kani::any();
+    kani::assume(data_len <= 8 * PAGE_SIZE && data_len % PAGE_SIZE == 0);
+    {
+        let fs = pfs::state();
+        fs.files[pfs::DATA].len = data_len;
+        fs.files[pfs::REGIONS].len = 0;
+        fs.open_seq = 0;
+    }
+    anydb_verif_platform::sync::set_arc_teardown(true);
+    let db = match Database::open_with_min_len(std::path::Path::new("d"), 0) {
+        Ok(db) => db,
+        Err(_) => panic!("open of an unlocked directory failed"),
+    };
+    assert!(pfs::state().files[pfs::DATA].locked && pfs::state().files[pfs::REGIONS].locked);
+    let db2 = db.clone();
+    let with_ro = kani::any::<bool>();
+    let ro = if with_ro { db.open_read_only_file().ok() } else { None };
+    drop(db);
+    // a clone keeps the instance (and its locks) alive
+    assert!(pfs::state().files[pfs::DATA].locked && pfs::state().files[pfs::REGIONS].locked, "lock released while a handle is alive");
+    drop(db2);
+    // last handle gone: a new open must be able to take both locks, even while a consumer still holds a read-only file
+    assert!(!pfs::state().files[pfs::DATA].locked, "data-file lock outlives the last database handle");
+    assert!(!pfs::state().files[pfs::REGIONS].locked, "regions-file lock outlives the last database handle");
+    kani::cover!(with_ro && ro.is_some(), "a read-only file is still held by a consumer");
+    core::mem::forget(ro);
+}
+
 // ---------------------------------------------------------------------------------------------
 // C17 / C01 (reopen): Regions::fill registers exactly the slots that decode; a garbage slot is
 // skipped without disturbing a valid one
